@@ -391,6 +391,21 @@ func checkC16(c *c16Case, rec *ev.Recorder) (fl *failure, harnessErr string) {
 			return failf("ForType(%s) did not return within 60s", c.GoType)
 		}
 		r2, ts2, _ := call(typ)
+		// history independence: the result is a function of the arguments alone, so a call with the
+		// other IgnoreInvalidTypes setting (and one without TypeSchemas) in between changes nothing
+		c.Ignore = !c.Ignore
+		_, _, _ = call(typ)
+		c.Ignore = !c.Ignore
+		if len(c.Overrides)+len(c.OverrideTDs) > 0 {
+			_, _ = jsonschema.ForType(typ, &jsonschema.ForOptions{IgnoreInvalidTypes: !c.Ignore})
+		}
+		r3, _, _ := call(typ)
+		if (r1.err != nil) != (r3.err != nil) {
+			return failf("ForType(%s) (ignore=%v): error-ness changes after a call with other options on the same type: first %v, later %v", c.GoType, c.Ignore, r1.err, r3.err)
+		}
+		if r1.err == nil && !reflect.DeepEqual(r1.s, r3.s) {
+			return failf("ForType(%s) (ignore=%v): the schema changes after a call with other options on the same type", c.GoType, c.Ignore)
+		}
 		cyclic := tgen.Cyclic(typ, ov)
 		supported := tgen.Supported(typ, ov)
 		wantErr := cyclic || (!supported && !c.Ignore)
